@@ -326,9 +326,95 @@ def _judge_cut(data, exp, intact, st, case, cut):
         break
 
 
+def run_large_entry(case, st):
+    if 'cut' in case:
+        # replay of one cut of a large file
+        sub = {k: v for k, v in case.items() if k != 'cut'}
+        st2 = type(st)()
+        run_large(sub, st2)
+
+        for kind, b in st2.buckets.items():
+            st.violation(kind, b['detail'], case)
+
+        st.case(case, nontrivial=True)
+        return
+
+    run_large(case, st)
+
+
 def _short(v):
     s = repr(v)
     return s if len(s) < 200 else s[:200] + '...'
+
+
+def run_large(case, st):
+    """A file with one very large section: cuts around block boundaries."""
+    size, line_len, kind, enc = (case['size'], case['line_len'],
+                                 case['kind'], case['encoding'])
+    line = ('y' * (line_len - 1) + '\n')
+    text = line * (size // line_len) + 'tail line\n'
+
+    if kind == 'diff':
+        calls = [['change', {}], ['file', {}],
+                 ['meta', {'metadata': {'path': 'big'}}],
+                 ['diff', {'content': text.encode('ascii')}],
+                 ['file', {}], ['meta', {'metadata': {'path': 'after'}}]]
+    else:
+        calls = [['preamble', {'text': text, 'indent': case['indent'],
+                               'encoding': enc}],
+                 ['change', {}], ['file', {}],
+                 ['meta', {'metadata': {'path': 'after'}}]]
+
+    data = spec.ref_serialize({'encoding': 'utf-8', 'calls': calls})
+    exp, perr = spec.ref_parse(data)
+
+    if perr is not None:
+        raise sut.HarnessError('reference parser rejects a large C07 input')
+
+    intact, err = sut.read_records(data)
+    st.case(case, nontrivial=True,
+            classes=['large-%s' % kind, 'size-%dk' % (size // 1024)])
+
+    if err is not None or foreign.compare(intact, exp) is not None:
+        st.violation('intact-file-misread', repr(err), case)
+        return
+
+    big = max(range(len(exp)), key=lambda i: exp[i]['span'][2] -
+              exp[i]['span'][1])
+    cs, ce = exp[big]['span'][1], exp[big]['span'][2]
+    cuts = set()
+
+    for block, kmax in ((4096, 3), (8192, 2), (65536, 4), (131072, 2)):
+        for base in (0, cs):           # file offsets and content offsets
+            for k in range(1, kmax + 1):
+                if base + k * block > ce + block:
+                    break
+
+                for d in (-1, 0, 1, line_len):
+                    cuts.add(base + k * block + d)
+
+    step = max(1, (ce - cs) // 30)
+    cuts.update(range(cs, ce, step))
+    cuts.update(range(max(0, len(data) - 40), len(data) + 1))
+    cuts.update(range(max(0, ce - 5), min(len(data), ce + 5)))
+    sub = dict(case)
+
+    for cut in sorted(c for c in cuts if 0 <= c <= len(data)):
+        _judge_cut(data, exp, intact, st, sub, cut)
+
+
+LARGE_SIZES = [65536, 65536 + 64, 70000, 131072, 131072 + 4096, 200000]
+
+
+@hs.composite
+def large_cases(draw):
+    return {
+        'size': draw(hs.sampled_from(LARGE_SIZES)),
+        'line_len': draw(hs.sampled_from([64, 64, 128, 100, 4096, 37])),
+        'kind': draw(hs.sampled_from(['diff', 'diff', 'preamble'])),
+        'indent': draw(hs.sampled_from([0, 4])),
+        'encoding': draw(hs.sampled_from(['utf-8', 'latin-1', 'utf-16'])),
+    }
 
 
 @hs.composite
@@ -341,6 +427,15 @@ def cases(draw):
 
 def checks():
     return [
+        HypCheck(
+            'large-sections', large_cases, run_large_entry,
+            budget={'quick': (8, 2), 'thorough': (16, 12)},
+            rule='files with one section of 64 KiB .. 200 KB (lines of 37 .. '
+                 '4096 bytes, so that line terminators fall on and around '
+                 'multiples of 4 KiB .. 128 KiB) cut at every offset around '
+                 'those multiples (file- and content-relative), at 60 '
+                 'evenly spaced points and around the section end; same '
+                 'prefix-of-intact-records oracle; every case non-trivial'),
         HypCheck(
             'truncate-and-perturb', cases, run_case,
             budget={'quick': (16, 24), 'thorough': (16, 320)},
